@@ -32,9 +32,10 @@ const (
 	w9InAlloc  = 2 // loader is inside updateInflightApprox (may be waiting for memory)
 	w9Returned = 3
 
-	w9CmdComplete = 0
-	w9CmdBlock    = 1
-	w9CmdFail     = 2
+	w9CmdReturn = 0 // return successfully (everything delivered)
+	w9CmdBlock  = 1 // deliver half of the missing slots
+	w9CmdFail   = 2
+	w9CmdRest   = 3 // deliver all missing slots, do not return yet
 )
 
 var errW9Load = errors.New("simulated storage error")
@@ -151,9 +152,14 @@ func (w *w9World) loader(ctx context.Context, h *requestHandler, q *queryBuilder
 			if cmd == w9CmdFail {
 				return 0, errW9Load
 			}
+			if cmd == w9CmdReturn {
+				// returning is a step of its own: the bytes were announced in an earlier step, so
+				// the trim goroutine has settled on them before the request is taken off the books
+				return n, nil
+			}
 			upto := len(ret)
 			if cmd == w9CmdBlock {
-				upto = (len(ret) + 1) / 2
+				upto = w9BlockUpto(ld)
 			}
 			ld.state = w9InAlloc
 			if cc != nil {
@@ -178,14 +184,14 @@ func (w *w9World) loader(ctx context.Context, h *requestHandler, q *queryBuilder
 			}
 			ld.delivered = upto
 			ld.blocks++
-			if cmd == w9CmdComplete {
-				return n, nil
-			}
 		case <-ctx.Done():
 			return 0, ctx.Err()
 		}
 	}
 }
+
+// w9BlockUpto: a block delivers half of the slots that are still missing.
+func w9BlockUpto(ld *w9Load) int { return ld.delivered + (len(ld.ret)-ld.delivered+1)/2 }
 
 // deltaBytes: what the next delivery up to slot `upto` adds to the in-flight estimate. The first
 // delivery of a load carries id+1 extra bytes so that no two requests have equal byte counts
@@ -246,6 +252,15 @@ func (w *w9World) memState() (size int, inflight int64, nreq int, lim cache2Limi
 func (w *w9World) mayDeliver(delta int64) bool {
 	size, inflight, _, lim := w.memState()
 	return lim.maxSize == 0 || size <= 0 || inflight+delta <= int64(lim.maxSize)
+}
+
+// willWait: the loader will sleep in tryNotExceedMemoryHardLimitInflight when it announces delta
+// more bytes (probe only). Deliveries and the return of a load are separate steps: a delivery only
+// raises the in-flight estimate and leaves the loader idle, so the trim goroutine it wakes decides
+// on a settled estimate whatever the order in which the Go scheduler runs the two.
+func (w *w9World) willWait(delta int64) bool {
+	size, inflight, _, lim := w.memState()
+	return lim.maxSize != 0 && size > 0 && int64(size)+inflight+delta > int64(lim.maxSize)
 }
 
 func (w *w9World) wouldBlockAtStart() bool {
@@ -582,10 +597,11 @@ func (w *w9World) drawLimits() {
 	_, inflight, _, _ := w.memState()
 	menu := []cache2Limits{
 		{},
-		{maxSize: 24 * w.rowB},
+		{maxSize: 200 * w.rowB},
+		{maxSize: 60 * w.rowB},
+		{maxSize: 120 * w.rowB, maxSizeSoft: 30 * w.rowB},
+		{maxSize: 30 * w.rowB, maxSizeSoft: 8 * w.rowB},
 		{maxSize: 8 * w.rowB},
-		{maxSize: 64 * w.rowB, maxSizeSoft: 10 * w.rowB},
-		{maxSize: 16 * w.rowB, maxSizeSoft: 4 * w.rowB},
 	}
 	l := menu[c.Intn(len(menu), "limits")]
 	if l.maxSize != 0 && int64(l.maxSize) < inflight {
@@ -636,7 +652,7 @@ func (w *w9World) idleLoads() []*w9Load {
 
 func (w *w9World) command(ld *w9Load, cmd int) {
 	r := w.r
-	name := []string{"complete", "block", "fail"}[cmd]
+	name := []string{"return", "block", "fail", "rest"}[cmd]
 	r.Sched(name, "storage")
 	r.Event("load", "%d %s", ld.id, name)
 	if cmd == w9CmdFail {
@@ -692,7 +708,7 @@ func w9Run(t *testing.T, r *verifsim.Run) {
 		// at cache2.load.after_notify; without that point the unchanged tree is expected to pass
 		armed["cache2.load.after_notify"] = false
 	}
-	ops := 30 + c.Intn(120, "ops")
+	ops := 40 + c.Intn(160, "ops")
 	r.Config["clients"] = clients
 	r.Config["queries"] = w.nQ
 	r.Config["chunk_size"] = chunkSize
@@ -751,7 +767,8 @@ func w9Run(t *testing.T, r *verifsim.Run) {
 		tickets := w.pts.Parked()
 		var acts []act
 		for _, ld := range idle {
-			if w.mayDeliver(w.deltaBytes(ld, len(ld.ret))) {
+			// "complete" = deliver what is missing, or (a step later) return
+			if ld.delivered == len(ld.ret) || w.mayDeliver(w.deltaBytes(ld, len(ld.ret))) {
 				acts = append(acts, act{kind: "complete", ld: ld})
 			}
 		}
@@ -772,20 +789,13 @@ func w9Run(t *testing.T, r *verifsim.Run) {
 			acts = append(acts, act{kind: "invalidate"})
 		}
 		for _, ld := range idle {
-			if ld.blocks == 0 && len(ld.ret) > 1 && w.mayDeliver(w.deltaBytes(ld, (len(ld.ret)+1)/2)) {
+			if d := w.deltaBytes(ld, w9BlockUpto(ld)); ld.blocks < 3 && len(ld.ret)-ld.delivered > 1 && w.mayDeliver(d) {
 				acts = append(acts, act{kind: "block", ld: ld})
+
 			}
 		}
-		if w.faulty && len(idle) > 0 {
+		if w.faulty && len(idle) > 0 && op%3 == 0 {
 			acts = append(acts, act{kind: "fail", ld: idle[c.Intn(len(idle), "fail_which")]})
-		}
-		if canGet && len(idle) > 0 && w.mayDeliver(w.deltaBytes(idle[0], len(idle[0].ret))) {
-			// a request that begins in the same burst as a load completes (it may find the cache
-			// above its hard limit before the trim goroutine has run)
-			acts = append(acts, act{kind: "complete+get", ld: idle[0]})
-		}
-		if canGet && len(tickets) > 0 {
-			acts = append(acts, act{kind: "release+get", tk: tickets[0].ID})
 		}
 		acts = append(acts, act{kind: "sleep"})
 		if useLimits {
@@ -800,15 +810,14 @@ func w9Run(t *testing.T, r *verifsim.Run) {
 		a := acts[c.Intn(len(acts), "action")]
 		switch a.kind {
 		case "complete":
-			w.command(a.ld, w9CmdComplete)
-		case "complete+get":
-			w.command(a.ld, w9CmdComplete)
-			w.launchGet()
-		case "release+get":
-			r.Sched("release", "hook")
-			r.Event("hook", "release ticket %d", a.tk)
-			w.pts.Release(a.tk)
-			w.launchGet()
+			if a.ld.delivered == len(a.ld.ret) {
+				w.command(a.ld, w9CmdReturn)
+			} else {
+				if w.willWait(w.deltaBytes(a.ld, len(a.ld.ret))) {
+					r.Probe("delivery_predicted_to_wait_for_memory")
+				}
+				w.command(a.ld, w9CmdRest)
+			}
 		case "block":
 			w.command(a.ld, w9CmdBlock)
 		case "fail":
@@ -868,12 +877,15 @@ func (w *w9World) windDown(check bool) {
 	for ; steps < budget; steps++ {
 		w.stepWait(time.Microsecond)
 		busy := false
-		for _, ld := range w.idleLoads() {
-			w.command(ld, w9CmdComplete)
+		if idle := w.idleLoads(); len(idle) > 0 { // one goroutine chain per step, as in the schedule
+			if idle[0].delivered == len(idle[0].ret) {
+				w.command(idle[0], w9CmdReturn)
+			} else {
+				w.command(idle[0], w9CmdRest)
+			}
 			busy = true
-		}
-		for _, tk := range w.pts.Parked() {
-			w.pts.Release(tk.ID)
+		} else if tks := w.pts.Parked(); len(tks) > 0 {
+			w.pts.Release(tks[0].ID)
 			busy = true
 		}
 		pendingLoad := false
@@ -909,7 +921,7 @@ func (w *w9World) windDown(check bool) {
 				stuck = append(stuck, fmt.Sprintf("invalidation %d", iv.id))
 			}
 		}
-		r.Fail("C23", "liveness", "hang", "with limits lifted, every load completed at once and every hook ticket released, after %d scheduler steps these are still waiting: %v", budget, stuck)
+		r.Fail("C23", "liveness", "hang", "with limits lifted, one load completed or one hook ticket released per step, after %d scheduler steps these are still waiting: %v", budget, stuck)
 	}
 	if check && !r.Failed() {
 		// let the post-load bookkeeping of the last loads finish
